@@ -927,13 +927,13 @@ LEVEL_TEXT = ("Coq theorems about a byte-level model of list_header and a transc
               "lossless_partial (every reply of every such history decodes to the identity body) is relative to the hypothesis that a decoder inverts "
               "the encoder; that hypothesis is validated, not proved, by decoding every reply of the run with the standard decoders.  Refuted for kvarn "
               "0.6.3 and repaired: list_header_ows_v0_refuted (7270dfd), identity_refusal_floor_v0_refuted / identity_refusal_optout_v0_refuted "
-              "(identity;q=0 ignored under the floor / for opted-out handlers: 46abfcf), identity_refusal_star_v0_refuted (*;q=0: fb022d9), "
-              "identity_refusal_case_v0_refuted (Identity;q=0: 1fc432a), memo_double_write_v0_refuted (the UnsafeCell memo cell was written twice when two "
-              "worker threads raced between its second check and its write: ec0a225).")
+              "(identity;q=0 ignored under the floor / for opted-out handlers: 0cd8927), identity_refusal_star_v0_refuted (*;q=0: cb78127), "
+              "identity_refusal_case_v0_refuted (Identity;q=0: 644c245), memo_double_write_v0_refuted (the UnsafeCell memo cell was written twice when two "
+              "worker threads raced between its second check and its write: 37d7eb3).")
 LEVEL_NOTE = ("Trusted: Coq kernel; extraction (sample re-checked in-kernel); hand transcription of the anchored code validated by the differential run on "
               "handle_cache / list_header / do_compress; the three decoder crates as the definition of 'standard decoder'; SC memory for the memo cell. "
               "No axioms. Encoder losslessness: validated per run, not proved. Not covered: streaming responses (compress is forced off for them and, "
-              "since 46abfcf, a forbidden identity does not turn them into a 406), Range over coded bodies (C09), more than one Accept-Encoding field "
+              "since 0cd8927, a forbidden identity does not turn them into a 406), Range over coded bodies (C09), more than one Accept-Encoding field "
               "line (first one only, as the code reads it).")
 TECHNIQUE = ("Coq proof (state-machine invariant for list_header, case analysis of clone_preferred, lifting over all histories of a page, inductive "
              "invariant over all schedules for the memo cell) + differential correspondence on kvarn::handle_cache with the Coq specification and "
